@@ -16,6 +16,10 @@ Definition C02_statement : Prop :=
           chunks (empty ones included) and either way the input can end, feeding the chunks one
           at a time gives what the whole stream gives *)
   (forall k e chunks, run_chunks k e chunks = loop_whole k e (concat chunks)) /\
+  (* (ii') pauses: the model has no clock; a quiet period of any length between two chunks is at
+           most a wake-up with nothing new, i.e. an empty chunk, and those never matter *)
+  (forall k e chunks,
+     run_chunks k e chunks = run_chunks k e (filter (fun c => negb (is_nil c)) chunks)) /\
   (* (iii) hence: conforming frames cut into chunks in any way whatsoever *)
   (forall k ms chunks, Forall (conforming k) ms -> concat chunks = frames ms ->
      run_chunks k AtEOF chunks = (bodies_of ms, Done EndedNormally)) /\
@@ -27,6 +31,7 @@ Proof.
   unfold C02_statement. repeat split.
   - intros k ms H. apply loop_whole_frames, conforming_all, H.
   - apply chunk_independence.
+  - apply pauses_irrelevant.
   - intros k ms chunks H E. rewrite chunk_independence, E. apply loop_whole_frames, conforming_all, H.
   - intros k stream. apply run_eof_done.
 Qed.
